@@ -21,13 +21,14 @@ ENV = {"env_on": Const(True), "budget": Int(0, 2), "ackpl": Bytes(32, 32)}
 ENV1 = {"env_on": Const(True), "budget": Int(0, 1), "ackpl": Bytes(32, 32)}
 
 
-def send_inv(self):
-    """Inv + TX mode + no attempt pending or about to start + at most one payload is left in the TX
-    FIFO (the one that failed) and it is announced by the cached MAX_RT/TX_FULL bit"""
+def send_pre(self):
+    """Inv + TX mode + no attempt pending or about to start; whatever is left in the TX FIFO (a
+    failed payload, possibly with payloads queued behind it by write(), up to a full FIFO) is
+    announced by the cached MAX_RT/TX_FULL bit"""
     hw = self._spi.hw
     s = self._in[0]
     return (inv(self) and (hw.reg[0] & 3) == 2 and not hw.inflight
-            and hw.tx_n <= 1 and (hw.tx_n == 0 or (s & 0x11) != 0)
+            and hw.tx_n <= 3 and (hw.tx_n == 0 or (s & 0x11) != 0)
             and implies(hw.tx_n > 0, (hw.reg[7] & 0x10) != 0 or not hw.ce)   # quiescent: nothing about to start
             and implies(hw.tx_n > 0, (hw.reg[7] & 0x60) == 0)   # flags were cleared when it was loaded; it only failed
             and implies(((s >> 1) & 7) >= 6, hw.rx_n == 0)         # a cached "RX empty" is true
@@ -35,10 +36,16 @@ def send_inv(self):
             and implies(hw.tx_n > 1, hw.tx_ackpipe[1] < 0) and implies(hw.tx_n > 2, hw.tx_ackpipe[2] < 0))
 
 
+def send_inv(self):
+    """what send()/resend() leave and resend() starts from: send_pre with at most ONE payload in
+    the TX FIFO (the one that failed)"""
+    return send_pre(self) and self._spi.hw.tx_n <= 1
+
+
 def req_send(self, buf, ask_no_ack, force_retry, send_only):
     hw = self._spi.hw
     dyn = (hw.reg[0x1C] & 1) != 0
-    return send_inv(self) and implies(dyn, 1 <= len(buf) and len(buf) <= 32)
+    return send_pre(self) and implies(dyn, 1 <= len(buf) and len(buf) <= 32)
 
 
 def _ok(result):
